@@ -12,15 +12,40 @@ namespace W
 
 open C04 C05 C06 C17 TreeBuild TreeCodec
 
-/-- the identity and the message of a `commit` are in the domain in which commit objects read back (C12) -/
-def CommitDomain (H : HashFn) (w : World) (idx : List Entry) (msg : Bytes) (tz t : Int) : Prop :=
+/-- the identity and the message of a `commit` are in the domain in which commit objects read back (C12): an identity the
+    signature reader accepts, a message made of lines without CR at the end and shorter than the scanner's limit, author and
+    committer lines likewise -/
+def CommitDomain (w : World) (msg : Bytes) (tz t : Int) : Prop :=
   ∀ loc glob, Cmds.cfgOf w.cfgLocal = some loc → Cmds.cfgOf w.cfgGlobal = some glob →
     C12.SignOK ⟨Config.userField loc glob (asc "name"), Config.userField loc glob (asc "email"), t, tz⟩ ∧
-    ∃ ls, ls ≠ [] ∧ msg = Bytes.join [10] ls ∧
-      ∀ parent : Option Bytes, (∀ p, parent = some p → p.length = 20) →
-        ∀ l ∈ C12.headerLines (writeTree H idx).id parent
-          ⟨Config.userField loc glob (asc "name"), Config.userField loc glob (asc "email"), t, tz⟩
-          ⟨Config.userField loc glob (asc "name"), Config.userField loc glob (asc "email"), t, tz⟩ ++ [[]] ++ ls, Bytes.LineOK l
+    Bytes.LineOK (C12.authorLine ⟨Config.userField loc glob (asc "name"), Config.userField loc glob (asc "email"), t, tz⟩) ∧
+    Bytes.LineOK (C12.committerLine ⟨Config.userField loc glob (asc "name"), Config.userField loc glob (asc "email"), t, tz⟩) ∧
+    ∃ ls, ls ≠ [] ∧ msg = Bytes.join [10] ls ∧ ∀ l ∈ ls, Bytes.LineOK l
+
+/-- a header line made of a short keyword and the hex form of a 20-byte id is a line the scanner returns whole -/
+theorem hexLine_ok (pre t : Bytes) (hpre : (10 : UInt8) ∉ pre) (hl : pre.length ≤ 100) (ht : t.length = 20) :
+    Bytes.LineOK (pre ++ hashStr t) := by
+  have hhex := Hex.encode_all_lower t
+  have hlen : (Hex.encode t).length = 40 := by rw [Hex.encode_length, ht]
+  refine ⟨?_, ?_, ?_⟩
+  · intro hm
+    rcases List.mem_append.mp hm with h1 | h1
+    · exact hpre h1
+    · have := hhex 10 h1; revert this; decide
+  · simp only [List.length_append, hashStr, hlen, Bytes.maxToken]; omega
+  · have hne : Hex.encode t ≠ [] := by intro h0; rw [h0] at hlen; cases hlen
+    intro h13
+    rw [List.getLast?_append] at h13
+    cases hg : (hashStr t).getLast? with
+    | none => exact hne (List.getLast?_eq_none_iff.mp hg)
+    | some y =>
+    rw [hg] at h13
+    simp at h13
+    subst h13
+    have hmem : (13 : UInt8) ∈ Hex.encode t := List.mem_of_getLast? hg
+    have := hhex 13 hmem; revert this; decide
+
+theorem lineOK_nil : Bytes.LineOK [] := ⟨by simp, by simp [Bytes.maxToken], by simp⟩
 
 theorem writeTree_id_len (H : HashFn) (es : List Entry) : (writeTree H es).id.length = 20 := by
   show (write H ((es.map (fun e => e.path.length)).sum + 1) es).id.length = 20
@@ -39,11 +64,32 @@ theorem commitAt_len20 (H : HashFn) (w : World) (hn : Named H w) (id : Bytes) (h
     with the root tree of the staged entries and with a stored commit (the branch's) as its only parent -/
 theorem commit_lines (H : HashFn) (w : World) (l : Loaded) (snap : Option (List Entry)) (msg : Bytes) (tz t : Int) (id data : Bytes)
     (hconn : Conn H w) (hcc : Cmds.commitCmd H (commitIn w l snap msg tz t) = .ok (id, data))
-    (hdom : CommitDomain H w l.idx msg tz t) :
+    (hdom : CommitDomain w msg tz t) :
     ∀ c, Commit.parse data = some c →
       c.tree = some (writeTree H l.idx).id ∧ ∀ p ∈ c.parents, (commitAt H w p).isSome = true := by
   obtain ⟨loc, glob, hloc, hglob, _, hdata, _, _, _, _⟩ := C02.commitCmd_ok H _ id data hcc
-  obtain ⟨hsign, ls, hls, hmsg, hlines⟩ := hdom loc glob hloc hglob
+  obtain ⟨hsign, hau, hco, ls, hls, hmsg, hmsgl⟩ := hdom loc glob hloc hglob
+  have hlines : ∀ parent : Option Bytes, (∀ p, parent = some p → p.length = 20) →
+      ∀ x ∈ C12.headerLines (writeTree H l.idx).id parent
+        ⟨Config.userField loc glob (asc "name"), Config.userField loc glob (asc "email"), t, tz⟩
+        ⟨Config.userField loc glob (asc "name"), Config.userField loc glob (asc "email"), t, tz⟩ ++ [[]] ++ ls, Bytes.LineOK x := by
+    intro parent hpl x hx
+    have htl : Bytes.LineOK (C12.treeLine (writeTree H l.idx).id) :=
+      hexLine_ok (asc "tree ") _ (by decide) (by decide) (writeTree_id_len H l.idx)
+    simp only [C12.headerLines, List.mem_append, List.mem_cons, List.mem_singleton, List.not_mem_nil, or_false] at hx
+    rcases hx with ((h1 | h1) | h1) | h1
+    · rcases h1 with h1 | h1
+      · rw [h1]; exact htl
+      · cases parent with
+        | none => simp at h1
+        | some p =>
+          simp at h1; rw [h1]
+          exact hexLine_ok (asc "parent ") p (by decide) (by decide) (hpl p rfl)
+    · rcases h1 with h1 | h1
+      · rw [h1]; exact hau
+      · rw [h1]; exact hco
+    · rw [h1]; exact lineOK_nil
+    · exact hmsgl x h1
   have hdata' : data = Commit.format (writeTree H l.idx).id (aget w.heads l.ref)
       ⟨Config.userField loc glob (asc "name"), Config.userField loc glob (asc "email"), t, tz⟩
       ⟨Config.userField loc glob (asc "name"), Config.userField loc glob (asc "email"), t, tz⟩ msg := hdata
@@ -78,7 +124,7 @@ def StepIn (H : HashFn) (w : World) (i : Inv) : Prop :=
   | .add _ => (∀ f ∈ w.files, PathOK f.1 ∧ (0 : UInt8) ∉ f.1 ∧ f.2.length ≤ Fmt.int64Max) ∧ BlobsFit H w (w.files.map (·.2))
   | .commit msg => NoClash H w i ∧ ∀ l, load H w = some l →
       Small (writeTree H l.idx).writes ∧ Fit w (writeTree H l.idx).writes.reverse ∧ fuelFor l.idx ≤ treeDepth ∧
-      CommitDomain H w l.idx msg i.tz (clock i.ts 0)
+      CommitDomain w msg i.tz (clock i.ts 0)
   | .writeTree => ∀ l, load H w = some l → Small (writeTree H l.idx).writes
   | _ => True
 
@@ -167,3 +213,26 @@ theorem world_step_fsck (H : HashFn) (w : W.World) (i : W.Inv) (h : W.Fsck H w) 
   W.run_fsck H w i h hin
 
 end C03
+
+namespace W
+
+private def cfgX : Bytes := asc "[user]\n\tname = X\n\temail = x@example.com\n"
+private def secX : Config.Sections := [(asc "user", [(asc "name", asc "X"), (asc "email", asc "x@example.com")])]
+private theorem cfgX_parse : Cmds.cfgOf (some cfgX) = some secX := by decide
+
+/-- the domain of `commit` is inhabited: an ordinary identity, an ordinary message -/
+example : CommitDomain { cfgLocal := some cfgX } (asc "first") 0 1700000000 := by
+  intro loc glob hl hg
+  rw [show ({ cfgLocal := some cfgX } : World).cfgLocal = some cfgX from rfl, cfgX_parse] at hl
+  injection hl with hl; subst hl
+  have : glob = [] := by
+    have h : Cmds.cfgOf ({ cfgLocal := some cfgX } : World).cfgGlobal = some [] := rfl
+    rw [h] at hg; injection hg with hg; exact hg.symm
+  subst this
+  refine ⟨?_, ?_, ?_, [asc "first"], by simp, by decide, ?_⟩
+  · unfold C12.SignOK C12.NameOK; decide +kernel
+  · unfold Bytes.LineOK; decide +kernel
+  · unfold Bytes.LineOK; decide +kernel
+  · intro l hl; simp at hl; subst hl; unfold Bytes.LineOK; decide +kernel
+
+end W
